@@ -174,6 +174,11 @@ func Analyze(ctx context.Context, scope *ReferenceScope, view *View, fn parser.A
 				udfnArgsExprs := fn.Args[1:]
 				udfnArgs := make([]value.Primary, len(udfnArgsExprs))
 
+				// The results are appended to the records after all frames of the partition have been
+				// evaluated: the arguments of later frames are still evaluated on these records, and a
+				// record must not have more cells than the header has fields until then.
+				results := make(map[int]value.Primary, len(partition))
+
 				for _, frame := range frameSet {
 					values, e := windowValues(ctx, seqScope, frame, partition, fn, valueCache)
 					if e != nil {
@@ -185,7 +190,7 @@ func Analyze(ctx context.Context, scope *ReferenceScope, view *View, fn parser.A
 						val := aggfn(values, scope.Tx.Flags)
 
 						for _, idx := range frame.Records {
-							view.RecordSet[idx] = append(view.RecordSet[idx], NewCell(val))
+							results[idx] = val
 						}
 					} else { //User Defined Function
 						for _, idx := range frame.Records {
@@ -206,9 +211,13 @@ func Analyze(ctx context.Context, scope *ReferenceScope, view *View, fn parser.A
 								break AnalyzeLoop
 							}
 
-							view.RecordSet[idx] = append(view.RecordSet[idx], NewCell(val))
+							results[idx] = val
 						}
 					}
+				}
+
+				for idx, val := range results {
+					view.RecordSet[idx] = append(view.RecordSet[idx], NewCell(val))
 				}
 			}
 		}
